@@ -14,12 +14,12 @@ TRUSTED = [
 ASSUMPTIONS = ["each context has three up commands (a failure is the middle one's) and one down / before / after command"]
 
 
-def mk_ctx(c, up_ok=True, cb_ok=True, down_ok=True):
+def mk_ctx(c, up_ok=True, cb_ok=True, down_ok=True, slow_after=False):
     # several up commands: all of them run; the start-up failed if ANY of them failed (here the middle one), not only the last
     return {"up": ['echo upb.%d >> "$TRACE"' % c, "exit %d" % (0 if up_ok else 3), 'sleep 0.03; echo upe.%d >> "$TRACE"' % c],
             "down": ['echo down.%d >> "$TRACE"; exit %d' % (c, 0 if down_ok else 6)],       # a failing down must not keep other contexts from theirs
             "before": ['echo cb.%d >> "$TRACE"; exit %d' % (c, 0 if cb_ok else 4)],
-            "after": ['echo ca.%d >> "$TRACE"' % c], "env": {"CTXN": str(c)}}
+            "after": [('sleep 0.4; ' if slow_after else '') + 'echo ca.%d >> "$TRACE"' % c], "env": {"CTXN": str(c)}}
 
 
 def mk_task(r, c, shape, ok):
@@ -61,6 +61,13 @@ def gen_cases(ctx):
             nctx, ctxs, upok, cbok = 3, [0, 1, 2] + ctxs, [True] * 3, [True] * 3
             downok = [[False] * 3, [False, True, True], [True, True, False]][k - 6]
             oks, shapes = [True] * 3 + oks, [{"cond": None, "before": False, "after": False}] * 3 + shapes
+        if k in (9, 10, 11, 12):   # a pipeline cancelled from ANOTHER goroutine while tasks run; the contexts' after hooks are slow: down still comes last
+            nctx = 1 + k % 2
+            ctxs = [i % nctx for i in range(2 + k % 3)]
+            nrun = len(ctxs)
+            upok, cbok, downok, oks = [True] * nctx, [True] * nctx, [True] * nctx, [True] * nrun
+            shapes = [{"cond": None, "before": False, "after": False}] * nrun
+            mode = "pipeline-cancel"
         cases.append({"id": len(cases), "nctx": nctx, "ctxs": ctxs, "upok": upok, "cbok": cbok, "downok": downok, "oks": oks, "shapes": shapes, "mode": mode, "kind": mode})
     return cases
 
@@ -68,7 +75,10 @@ def gen_cases(ctx):
 def to_engine(c, workdir):
     n = len(c["ctxs"])
     tasks = [mk_task(r, c["ctxs"][r], c["shapes"][r], c["oks"][r]) for r in range(n)]
-    contexts = {"c%d" % i: mk_ctx(i, c["upok"][i], c["cbok"][i], c.get("downok", [True] * 8)[i]) for i in range(c["nctx"])}
+    contexts = {"c%d" % i: mk_ctx(i, c["upok"][i], c["cbok"][i], c.get("downok", [True] * 8)[i], slow_after=c["mode"] == "pipeline-cancel") for i in range(c["nctx"])}
+    if c["mode"] == "pipeline-cancel":
+        for t in tasks:
+            t["commands"] = [t["commands"][0], "sleep 2"]
     if c["mode"] == "seq":
         plan = [{"op": "run", "tasks": list(range(n))}]
     elif c["mode"] == "par":
@@ -76,6 +86,8 @@ def to_engine(c, workdir):
     elif c["mode"] == "mixed":
         h = n // 2
         plan = [{"op": "par", "tasks": list(range(h))}, {"op": "run", "tasks": list(range(h, n))}] if h else [{"op": "run", "tasks": list(range(n))}]
+    elif c["mode"] == "pipeline-cancel":
+        plan = [{"op": "pipeline", "stages": [{"task": r, "deps": [], "allow": False} for r in range(n)], "after_ms": 300}]
     else:
         plan = [{"op": "pipeline", "stages": [{"task": r, "deps": [], "allow": False} for r in range(n)]}]
     plan.append({"op": "finish"})
@@ -138,7 +150,7 @@ def run(ctx):
     res = vlib.Result()
     res.rule = ("1..8 tasks over 1..3 contexts run simultaneously (goroutines released together), in sequence, mixed, or as independent stages of the "
                 "real scheduler; tasks with/without condition (true/false), before, after; succeeding and failing; up and context-before succeeding "
-                "and failing; then Finish twice.  Through the binary: target sequences of tasks and pipelines, succeeding and failing.  Every trace is "
+                "and failing; a pipeline cancelled from another goroutine while its tasks run (slow context after hooks); then Finish twice.  Through the binary: target sequences of tasks and pipelines, succeeding and failing.  Every trace is "
                 "judged by the C14 monitor in Coq; sequential plans are also compared token by token with the model.  distinct = distinct case; "
                 "non-trivial = at least 2 runs sharing a context.")
     cases = ctx.replay_cases if ctx.replay_cases else gen_cases(ctx)
@@ -165,6 +177,10 @@ def run(ctx):
         tr = coq_otrace(o.get("trace") or [])
         k = len(items)
         index[k] = (c, o, "monitor")
+        if c["mode"] == "pipeline-cancel":
+            items.append("(%d%%N, ctx_mon_cancelled %s %s true)" % (k, coq_g(c), tr))
+            res.nontrivial_keys.add(json.dumps([c["ctxs"], c["mode"]]))
+            continue
         items.append("(%d%%N, ctx_mon %s %s %s true)" % (k, coq_g(c), tr, vlib.clist(errs, vlib.cbool)))
         if c["mode"] == "seq":
             k = len(items)
